@@ -103,7 +103,11 @@ def _nonadjacent(a1, b1, a2, b2):
         m4 = AddMarkStep(a1, b1, C.marks[0]).merge(AddMarkStep(a2, b2, C.marks[0]))
         m5 = AddMarkStep(a1, b1, C.marks[0]).merge(AddMarkStep(a2, b2, C.marks[1]))
         m6 = AddMarkStep(a1, b1, C.marks[0]).merge(RemoveMarkStep(a2, b2, C.marks[0]))
+        m7 = RemoveMarkStep(a1, b1, C.marks[0]).merge(RemoveMarkStep(a2, b2, C.marks[1]))
+        m8 = RemoveMarkStep(a1, b1, C.marks[0]).merge(RemoveMarkStep(a2, b2, C.marks[0]))
+        m9 = RemoveMarkStep(a1, b1, C.marks[0]).merge(AddMarkStep(a2, b2, C.marks[0]))
         ok = ok and m5 is None and m6 is None and ((m4 is not None) == overlap)
+        ok = ok and m7 is None and m9 is None and ((m8 is not None) == overlap)
     return rt.fin(ok, "merge of non-adjacent / structure / foreign steps")
 
 
